@@ -217,7 +217,7 @@ func genCase(t *rapid.T) Case {
 	lim := 230
 	switch c.Fn {
 	case "seg-seg2", "pt-seg2", "perp2", "pt-ls2":
-		c.Extra = rapid.SampledFrom([]int{0, 0, 1, 2}).Draw(t, "extra")
+		c.Extra = rapid.SampledFrom([]int{0, 0, 1, 2, 3}).Draw(t, "extra")
 		lim = 480
 	}
 	if c.Class == "wide-whole-numbers" {
@@ -477,6 +477,8 @@ func prop(c Case) error {
 			for k := 0; k < (i+1)%3; k++ {
 				out = append(out, float64(10*i+k)+0.5)
 			}
+		case 3: // a Z that is not a number, an M that is infinite (these are distances in x and y)
+			out = append(out, math.NaN(), math.Inf(1-2*(i%2)))
 		}
 		return out
 	}
